@@ -145,7 +145,7 @@ def run(chk):
     for bid, b in f.bodies.items():
         if b.kind == "method" and b.impl_trait and b.impl_trait.split("::")[-1] == TRAIT and b.name in ("undo", "redo"):
             impls.setdefault(b.impl_self_s, {})[b.name] = bid
-    chk.floor("R-UNDO-SYM", "impl UndoOperation with undo and redo", sum(1 for d in impls.values() if len(d) == 2), 44)
+    chk.floor("R-UNDO-SYM", "impl UndoOperation with undo and redo", sum(1 for d in impls.values() if len(d) == 2), 40)
     nwrites = 0
     for ty, d in sorted(impls.items()):
         if len(d) != 2:
@@ -363,4 +363,4 @@ def undo_guard(chk, f, g, eff, impls):
                 chk.finding("%s|guard|%s|%s-only" % (short, fl, side), rule="R-UNDO-GUARD", where="%s:%s" % (ub.file, f.bodies[d[side]].line), fn="%s::%s" % (short, side),
                             what="%s::%s goes through Layer::%s, which does nothing depending on properties.%s, and %s::%s has no such dependence: on such a layer the two directions are not inverse" % (
                                 short, side, "/".join(via), fl, short, "redo" if side == "undo" else "undo"))
-    chk.floor("R-UNDO-GUARD", "operations compared", n, 44)
+    chk.floor("R-UNDO-GUARD", "operations compared", n, 40)
